@@ -6,6 +6,7 @@ import (
 	"go.uber.org/zap/verif/props/c05"
 	"go.uber.org/zap/verif/props/c06"
 	"go.uber.org/zap/verif/props/c07"
+	"go.uber.org/zap/verif/props/c08"
 	"go.uber.org/zap/verif/props/c09"
 	"go.uber.org/zap/verif/props/c10"
 	"go.uber.org/zap/verif/props/c11"
@@ -40,5 +41,6 @@ func init() {
 	register("C06", "exploration", c06.Run, c06.Child)
 	register("C09", "exploration", c09.Run, c09.Child)
 	register("C04", "exploration", c04.Run, c04.Child)
+	register("C08", "exploration", c08.Run, c08.Child)
 	register("C02", "exploration", encjson.Run02, nil)
 }
